@@ -141,6 +141,7 @@ package check
 //@ func (*Engine).checkExpandSubject$1
 //@   requires captured-depth: restDepth >= 1
 //@   ensures[C02] truncated-expansion-is-not-a-denial: (err == nil && len(results) < lastexp) ==> gunk(g)
+//@   loop 2 invariant[C02] truncation-stays-recorded: (len(results) < lastexp ==> gunk(g))
 //@   callsite Traverser.TraverseSubjectSetExpansion requires[C01] expands-the-request: $arg2 == r
 //@   callsite (*Engine).checkIsAllowed requires[C01] next-hop-is-the-traversal-target: $arg2 == result.To && $arg4
 //@   decreases[C15] restDepth + 1, 2, 0
